@@ -25,14 +25,18 @@ pub fn info(prop: &str) -> PropInfo {
         "C04" => PropInfo { id: "C04", engine: "e1", rule: "seeded programs with untracked reads of external cells + histories changing cells followed by a synthetic write of any durability; non-trivial = an untracked node was re-executed in a later revision" },
         "C06" => PropInfo { id: "C06", engine: "e1", rule: "seeded programs whose makers create 0..k tracked structs conditionally with colliding idents; non-trivial = a maker re-executed and at least one struct identity was compared (kept) or a discard was expected" },
         "C05" => PropInfo { id: "C05", engine: "e1", rule: "seeded programs whose shared sub-nodes are q_lru (declared capacity 4), histories interleaving requests, writes, set_lru_capacity(0..4), trigger_lru_eviction; non-trivial = the list model evicted at least one value and it was later recomputed or the bound was checked at full capacity" },
+        "C08" => PropInfo { id: "C08", engine: "e3", rule: "[e3] threads intern overlapping small values concurrently (directly and inside queries) under seeded schedules; distinct = (program, rounds, recorded schedule); non-trivial = >= 2 context switches, >= 1 body executed, >= 1 interning compared. [e1] single-handle histories: canonical handles and kept identities per the interned model" },
         "C09" => PropInfo { id: "C09", engine: "e1", rule: "seeded programs interning small values into It1/It2/It3/ItInf (single shard) under LOW-only, mixed and MEDIUM/HIGH input durabilities, with bursts of revisions; every DidReuseInternedValue is checked against the retention model; non-trivial = at least one reuse event was checked, or (durable / immortal classes) an identity was observed to be kept across revisions" },
         "C12" => PropInfo { id: "C12", engine: "e1", rule: "seeded cyclic programs over 4-bit sets whose block members are q_fix/q_fixj with monotone bodies (nested, input-conditional cycles), every node requested in random order across histories that reshape the cycles; non-trivial = at least one fixpoint iteration happened and a request followed a write that followed a request" },
         "C13" => PropInfo { id: "C13", engine: "e1", rule: "same generator with cycle_result members; expected = fallback for nodes on a cycle of the input-determined call graph, body value otherwise; non-trivial = a cycle was finalized and request-after-write-after-request" },
         "C14" => PropInfo { id: "C14", engine: "e1", rule: "cyclic programs whose block mixes functions without recovery and q_fix; outcome per request: cycle panic (required on a fresh database when the from-scratch DFS re-enters a non-recovering function) or the least-fixpoint value; non-trivial = a cycle panic was observed and later requests succeeded" },
         "C15" => PropInfo { id: "C15", engine: "e1", rule: "fixpoint programs with an input-guarded non-monotone step; guard on => bounded panic or any value, never more than 200 iterations; guard off later => least fixpoint; non-trivial = a non-convergence panic was observed" },
+        "C26" => PropInfo { id: "C26", engine: "e1p", rule: "seeded acyclic programs over persisted inputs / tracked structs / interned values / functions (q_noeq and q_lru are deliberately not persisted), histories with SnapshotRestore steps (serde_json round trip into a fresh database) at arbitrary points; non-trivial = at least one restore happened and a request was compared afterwards" },
+        "C22" => PropInfo { id: "C22", engine: "e1", rule: "fault enumeration: each generated base history (acyclic with structs/interning/accumulators, or cyclic with cycle_fn) is first run fault-free to count the user callbacks K by class (body op, V::eq, V::hash, cycle_fn, cycle_initial/cycle_result, event callback); then re-run with a panic injected at callback k for every k of the rare classes and a sample of body ops (<= 40 per base history). evaluation = one (history, k) pair; non-trivial = the fault fired, the panic reached the caller, the step was retried and at least one later request was compared" },
         "C07" => PropInfo { id: "C07", engine: "e1", rule: "seeded programs churning tracked structs and interned values (revisions=1..3, single shard) with functions keyed by them; non-trivial = a slot was observed with a bumped generation or an interned slot was reused" },
         "C10" => PropInfo { id: "C10", engine: "e1", rule: "seeded makers that conditionally specify q_spec for structs they create, consumers via returned handles, both request orders; non-trivial = request after write after request in a program that contains a Specify op and a Spec node" },
         "C11" => PropInfo { id: "C11", engine: "e1", rule: "seeded acyclic programs with conditional Acc ops at several depths; accumulated() requested at random points; non-trivial = at least one non-empty accumulated vector was compared after a write" },
+        "C16" | "C17" | "C18" | "C19" | "C20" | "C21" | "C24" => PropInfo { id: "conc", engine: "e3", rule: "seeded concurrent case = generated program + rounds (reader threads with request lists, optional writer op / token cancels / fault plan) + scheduler parameters (strategy random|pct|rr, stay bias, PCT depth, spurious wake-up rate); one seed = one exactly repeatable interleaving (recorded choice list); distinct = (program, rounds, recorded schedule) hash; non-trivial = >= 2 context switches between managed threads, >= 1 body executed and >= 1 result compared with the reference" },
         _ => PropInfo { id: "C??", engine: "e1", rule: "" },
     }
 }
@@ -45,7 +49,187 @@ fn scale(t: Tier, c: &mut GenCfg, h: &mut HistCfg) {
     }
 }
 
+/// Concurrent cases (engine e3): program + rounds of reader threads, writer, cancels, faults.
+pub fn make_conc_case(prop: &str, seed: u64, tier: Tier) -> Case {
+    use crate::conc::*;
+    let mut r = Rng::new(seed ^ crate::rng::hash_str(7, prop));
+    let thorough = tier == Tier::Thorough;
+    let mut knobs = Knobs::default();
+    let mut class;
+    // ---- program
+    let cyclic = match prop {
+        "C18" => true,
+        "C14" => true,
+        "C20" | "C21" | "C22" | "C19" => r.pct(45),
+        _ => false,
+    };
+    let prog = if cyclic {
+        let mut c = CycCfg::base();
+        c.yields = true;
+        c.block = (2, if thorough { 6 } else { 4 });
+        c.ops = (2, 5);
+        match prop {
+            "C14" => {
+                c.block_kinds = vec![(Kind::Plain, 3), (Kind::Fix, 2)];
+                class = "cyclic_no_recovery".to_string();
+            }
+            "C18" if r.pct(30) => {
+                c.block_kinds = vec![(Kind::Fb, 1)];
+                class = "cyclic_fallback".to_string();
+            }
+            _ => {
+                c.block_kinds = vec![(Kind::Fix, 3), (Kind::FixJ, 2)];
+                class = "cyclic_fixpoint".to_string();
+            }
+        }
+        gen_cyclic(&mut r, &c)
+    } else {
+        let mut g = GenCfg::base();
+        g.kinds = vec![(Kind::Plain, 10), (Kind::NoEq, 2), (Kind::Multi, 2), (Kind::Mk, 3)];
+        g.yields = true;
+        g.nodes = (3, if thorough { 10 } else { 7 });
+        g.ops = (2, 6);
+        g.inputs = (1, 3);
+        g.m_choices = vec![2, 3, 4];
+        class = "acyclic".to_string();
+        match prop {
+            "C08" => {
+                g.intern_ops = true;
+                g.on_it = true;
+                g.m_choices = vec![3, 4];
+                knobs.hash_mod = if r.pct(60) { 1 } else { 0 };
+                class = "interning".into();
+            }
+            "C24" => {
+                g.ts_ops = true;
+                g.on_ts = true;
+                g.intern_ops = r.pct(50);
+                g.mk_bias = 90;
+                g.kinds = vec![(Kind::Plain, 4), (Kind::Mk, 8), (Kind::Multi, 2)];
+                class = "creators".into();
+            }
+            "C20" | "C21" | "C22" => {
+                g.ts_ops = r.pct(40);
+                g.on_ts = true;
+                g.intern_ops = r.pct(30);
+                if prop == "C20" {
+                    g.kinds.push((Kind::Lru, 2));
+                }
+            }
+            _ => {
+                g.ts_ops = r.pct(30);
+                g.on_ts = true;
+            }
+        }
+        gen_acyclic(&mut r, &g)
+    };
+    let world = gen_world(&mut r, prog.n_inputs, prog.n_cells, prog.m);
+    let m = prog.m as u64;
+    let queryable: Vec<u16> = (0..prog.nodes.len()).filter(|i| prog.nodes[*i].kind.keyed_by_node() || prog.nodes[*i].kind == Kind::Zero).map(|i| i as u16).collect();
+    let blk: Vec<u16> = (prog.blk_lo..prog.blk_hi).collect();
+    // ---- rounds
+    let n_rounds = match prop {
+        "C17" => r.range(2, 3),
+        "C16" | "C18" | "C08" | "C24" => r.range(1, 2),
+        _ => r.range(1, 3),
+    };
+    let mut rounds = vec![];
+    let mut cur = world.clone();
+    for ri in 0..n_rounds {
+        let nt = r.range(2, if thorough { 4 } else { 3 });
+        let mut readers = vec![];
+        for _ in 0..nt {
+            let k = r.range(1, 3);
+            let mut reqs = vec![];
+            for _ in 0..k {
+                let n = if !blk.is_empty() && r.pct(70) { *r.pick(&blk) } else if r.pct(50) { queryable[queryable.len() - 1 - r.usize(queryable.len().min(2))] } else { *r.pick(&queryable) };
+                let q = Req::Query { n, arg: r.below(m) as u32, deep: r.pct(50) };
+                let req = match prop {
+                    "C08" if r.pct(50) => Req::Intern { t: r.below(4) as u8, v: r.below(m) as u32 },
+                    "C24" if r.pct(40) => Req::NewInput { v: r.below(1000) as u32 },
+                    "C24" if r.pct(25) => Req::CloneQueryDrop { n, arg: 0 },
+                    _ if r.pct(8) => Req::CloneQueryDrop { n, arg: 0 },
+                    _ => q,
+                };
+                reqs.push(req);
+            }
+            readers.push(reqs);
+        }
+        let mut round = Round { readers, ..Default::default() };
+        match prop {
+            "C20" => {
+                let op = match r.below(10) {
+                    0..=4 => {
+                        let (i, f) = (r.usize(prog.n_inputs), r.usize(3));
+                        let v = r.below(m) as u32;
+                        cur.ins[i][f] = v;
+                        WriterOp::SetIn { i: i as u16, f: f as u8, v }
+                    }
+                    5 | 6 => WriterOp::Synthetic,
+                    7 => WriterOp::SetLru { cap: r.below(4) as u8 },
+                    8 => WriterOp::TriggerLru,
+                    _ => WriterOp::TriggerCancel,
+                };
+                round.writer = Some(op);
+                round.writer_delay = r.below(30) as u8;
+            }
+            "C21" => {
+                let k = r.range(1, 2);
+                for _ in 0..k {
+                    round.cancels.push((r.usize(nt) as u8, r.below(40) as u8));
+                }
+            }
+            _ => {}
+        }
+        rounds.push(round);
+        // a joined write between rounds (no readers alive): the next round runs in a new revision
+        let fallback = prog.nodes.iter().any(|n| n.kind == Kind::Fb);
+        if ri + 1 < n_rounds && !fallback && !matches!(prop, "C20") {
+            let (i, f) = (r.usize(prog.n_inputs), r.usize(3));
+            let v = r.below(m) as u32;
+            cur.ins[i][f] = v;
+            rounds.push(Round { readers: vec![], writer: Some(WriterOp::SetIn { i: i as u16, f: f as u8, v }), ..Default::default() });
+        }
+    }
+    let strategy = match r.below(10) {
+        0..=5 => "random",
+        6..=8 => "pct",
+        _ => "rr",
+    };
+    let conc = ConcCase {
+        scenario: prop.to_string(),
+        rounds,
+        sched_seed: r.next(),
+        strategy: strategy.to_string(),
+        stay_pct: *r.pick(&[30, 50, 70, 85, 95]),
+        pct_depth: r.range(1, if thorough { 5 } else { 3 }) as u32,
+        spurious_pct: if r.pct(30) { 3 } else { 0 },
+        max_steps: 400_000,
+        choices: vec![],
+    };
+    class = format!("{class}+{strategy}");
+    // fault plan for the panic scenarios: a panic at a random user callback
+    let mut panic_at = None;
+    let mut fault_mask = u32::MAX;
+    if prop == "C22" {
+        panic_at = Some(r.below(60));
+        // event-callback panics during stale-output deletion are a recorded finding of the
+        // single-handle check; the concurrent class concentrates on waiting threads
+        fault_mask = (1 << Cb::BodyOp as u32) | (1 << Cb::ValEq as u32) | (1 << Cb::CycleFn as u32) | (1 << Cb::CycleInitial as u32);
+    }
+    Case { property: prop.to_string(), engine: "e3".into(), class, seed, knobs, prog, world: (&world).into(), hist: vec![], panic_at, fault_mask, conc: Some(conc), expect: vec![] }
+}
+
 pub fn make_case(prop: &str, seed: u64, tier: Tier) -> Case {
+    #[cfg(feature = "e3")]
+    {
+        return make_conc_case(prop, seed, tier);
+    }
+    #[allow(unreachable_code)]
+    make_case_e1(prop, seed, tier)
+}
+
+pub fn make_case_e1(prop: &str, seed: u64, tier: Tier) -> Case {
     let mut r = Rng::new(seed ^ crate::rng::hash_str(0, prop));
     let mut g = GenCfg::base();
     let mut h = HistCfg::base();
@@ -161,7 +345,7 @@ pub fn make_case(prop: &str, seed: u64, tier: Tier) -> Case {
             h.w_clone = 3;
             class = "lru".into();
         }
-        "C09" => {
+        "C08" | "C09" => {
             // interning under every retention setting x durability class, bursts with no interning
             g.kinds = vec![(Kind::Plain, 10), (Kind::NoEq, 1), (Kind::Mk, 1)];
             g.intern_ops = true;
@@ -246,6 +430,40 @@ pub fn make_case(prop: &str, seed: u64, tier: Tier) -> Case {
             h.durs = vec![None, None, Some(Dur::Low), Some(Dur::Medium), Some(Dur::High), Some(Dur::Never)];
             class = "accumulate".into();
         }
+        "C26" => {
+            g.kinds = vec![(Kind::Plain, 10), (Kind::Multi, 3), (Kind::Mk, 4), (Kind::Ref, 1), (Kind::NoEq, 2), (Kind::Lru, 1)];
+            g.on_ts = true;
+            g.on_it = true;
+            g.zero = true;
+            g.ts_ops = r.pct(60);
+            g.intern_ops = r.pct(50);
+            g.m_choices = vec![2, 3, 4, 8];
+            g.nodes = (3, 9);
+            h.steps = (6, 26);
+            h.w_snapshot = 12;
+            h.w_burst = 2;
+            h.motif_pct = 20;
+            knobs.hash_mod = if r.pct(50) { 1 } else { 0 };
+            class = "persist".into();
+        }
+        "C22" => {
+            // base histories for fault enumeration: small, every kind of user callback reachable
+            g.kinds = vec![(Kind::Plain, 10), (Kind::NoEq, 2), (Kind::Multi, 2), (Kind::Mk, 4), (Kind::Lru, 1)];
+            g.on_ts = true;
+            g.on_it = true;
+            g.ts_ops = r.pct(70);
+            g.intern_ops = r.pct(60);
+            g.acc_ops = r.pct(20);
+            g.nodes = (3, 7);
+            g.ops = (2, 6);
+            g.m_choices = vec![2, 3, 4];
+            h.steps = (5, 14);
+            h.w_intern_out = if g.intern_ops { 4 } else { 0 };
+            h.w_acc = if g.acc_ops { 5 } else { 0 };
+            h.w_clone = 3;
+            knobs.hash_mod = if r.pct(50) { 1 } else { 0 };
+            class = "acyclic".into();
+        }
         "C12" | "C13" | "C14" | "C15" => {}
         _ => panic!("unknown property {prop}"),
     }
@@ -271,6 +489,13 @@ pub fn make_case(prop: &str, seed: u64, tier: Tier) -> Case {
             class = "no_recovery".into();
             Some(c)
         }
+        "C22" if seed % 5 < 2 => {
+            let mut c = CycCfg::base();
+            c.block = (1, 3);
+            c.block_kinds = vec![(Kind::Fix, 2), (Kind::FixJ, 3)];
+            class = "cyclic".into();
+            Some(c)
+        }
         "C15" => {
             let mut c = CycCfg::base();
             c.bad = true;
@@ -291,6 +516,11 @@ pub fn make_case(prop: &str, seed: u64, tier: Tier) -> Case {
         h.w_clone = 3;
         if prop == "C15" {
             h.steps = (4, 14);
+        }
+        if prop == "C22" {
+            h.steps = (4, 10);
+            h.w_trigcancel = 0;
+            h.w_acc = 0;
         }
         if prop == "C13" && r.pct(40) {
             // all entry orders inside one revision (free of the recorded finding's trigger)
@@ -390,6 +620,10 @@ pub fn nontrivial(case: &Case, out: &RunOut) -> bool {
         }
         phase == 3 && st("ev_will_execute") > 0
     };
+    if case.engine == "e3" {
+        // a concurrent run is non-trivial when threads really interleaved on shared work
+        return st("context_switches") >= 2 && st("ev_will_execute") > 0 && (st("reader_values_compared") > 0 || st("interned_outside") > 0 || st("inputs_created") > 0);
+    }
     match case.property.as_str() {
         "C02" => {
             let mut ds = std::collections::BTreeSet::new();
@@ -403,7 +637,9 @@ pub fn nontrivial(case: &Case, out: &RunOut) -> bool {
         "C03" => base && (st("reexec_justified") > 0 || st("ev_did_validate_memo") > 0),
         "C04" => base && st("untracked_reexecuted_in_revision") > 0,
         "C05" => base && (st("lru_evicted_value_recomputed") > 0 || st("lru_bound_checked_at_capacity") > 0),
-        "C09" => base && (st("intern_reuse_checked") > 0 || st("intern_identity_kept") > 0),
+        "C08" | "C09" => base && (st("intern_reuse_checked") > 0 || st("intern_identity_kept") > 0),
+        "C26" => st("restores") > 0 && st("ev_did_validate_memo") + st("ev_will_execute") > 0,
+        "C22" => st("faults_fired") > 0 && st("fault_step_retried") > 0,
         "C12" => base && st("cycle_iterations") > 0,
         "C13" => base && st("cycles_finalized") > 0,
         "C14" => st("cycle_panic_seen") > 0 && st("ev_will_execute") > 0,
